@@ -1,0 +1,289 @@
+//go:build verif
+
+// Contracts for the nsqd HTTP API, second pass (area J): /mpub, the create / delete / empty / pause endpoints, the query helpers and
+// the TLS gate of ServeHTTP (C10, C07, C11), checked by /verif/cmd/nsqvc. Comment-only file.
+// Reused: httpErr / gotQuery / getTopicFromQuery (zz_contracts_httppub_verif.go), the put*/gotTopic* ghosts, cfgMax*, opts_fixed, mpubAt,
+// mpubMsg, readMPUB (zz_contracts_publish_verif.go), the ghost INPUT stream rIn / rPos (lib/trusted/input.spec), ReadBytes over that
+// stream (lib/trusted/relay.spec, replaced: see NOTES), bufio.NewReader (.trusted/jhttp.spec).
+
+package nsqd
+
+// ------------------------------------------------------------------------------------------------------------------
+// POST /mpub?topic=..[&binary=..]
+//
+// Mode. Text is the default; `binary` selects binary mode unless its first value is one that the table boolParams maps to false
+// ("false", "0"); an unrecognised value counts as true. (boolParams is a package variable: the clause reads the table itself.)
+//@ pred jBinaryMode(q url.Values) := has(q, "binary") && (!has(boolParams, q["binary"][0]) || boolParams[q["binary"][0]])
+
+// TEXT mode. The body is cut at every '\n' (byte 10). A message is made from every NON-EMPTY maximal newline-free segment, in order:
+//   jMsgPos(m)  position in the input (rIn) of the first byte of m's body, jMsgEnd(m) the position just after its last byte
+//               (jSrcPos: the stream position the buffer was filled from, assumed contract of ReadBytes)
+//   jTextMsg    non-nil, 1 <= len(body) <= max-msg-size, not deferred, body inside the part of the input this request consumed
+//   [text-bodies-are-input]  body[k] == rIn[jMsgPos + k]             (byte-for-byte, C07)
+//   [text-no-newline]        no byte of a body is '\n'
+//   [text-left-maximal]      the segment starts at the start of the body or just after a '\n'
+//   [text-right-maximal]     the segment is followed by a '\n', or it is the final unterminated segment: it ends exactly where the
+//                            input ended (all bytes kept: a body that lost its last byte would end one before)
+//   [text-in-order]          consecutive messages are consecutive, disjoint segments (at least the separating '\n' between them)
+//@ fn jMsgPos(m *Message) int := jSrcPos(base(m.Body)) + off(m.Body)
+//@ fn jMsgEnd(m *Message) int := jSrcPos(base(m.Body)) + off(m.Body) + len(m.Body)
+//@ pred jTextMsg(m *Message, start int, end int, maxMsg int) := m != nil && 1 <= len(m.Body) && len(m.Body) <= maxMsg && m.deferred == 0 && base(m.Body) >= 0 &&
+//@      start <= jMsgPos(m) && jMsgEnd(m) <= end
+
+//@ func (s *httpServer) doMPUB(w http.ResponseWriter, req *http.Request, ps httprouter.Params) (interface{}, error)
+//@   props C10 C07
+//@   requires s != nil && s.nsqd != nil && s.nsqd.ci != nil && http_api.mServerReq(req)
+//@   ensures[status] result1 != nil ==> httpErr(result1, 400) || httpErr(result1, 413) || httpErr(result1, 500) || httpErr(result1, 503)
+//@   ensures[declared-too-big; uses opts_fixed] req.ContentLength > cfgMaxBodySize() ==> jHttpErrT(result1, 413, "BODY_TOO_BIG") && rPos == old(rPos) && getTopicCalls == old(getTopicCalls)
+//@   ensures[bad-args-400] result1 != nil && getTopicCalls == old(getTopicCalls) ==> rPos == old(rPos) && putCalls == old(putCalls) &&
+//@        (jHttpErrT(result1, 413, "BODY_TOO_BIG") || jHttpErrT(result1, 400, "INVALID_REQUEST") || jHttpErrT(result1, 400, "MISSING_ARG_TOPIC") || jHttpErrT(result1, 400, "INVALID_TOPIC"))
+//@   ensures[topic-name-valid] getTopicCalls != old(getTopicCalls) ==> getTopicCalls == old(getTopicCalls) + 1 && validName(gotTopicName) && gotTopicName == gotQuery["topic"][0]
+//@   ensures[all-or-nothing] result1 != nil ==> putCalls == old(putCalls) || (putCalls == old(putCalls) + 1 && putErr != nil && jHttpErrT(result1, 503, "EXITING"))
+//@   ensures[ack-after-put] result1 == nil ==> putCalls == old(putCalls) + 1 && putErr == nil && putTopic == gotTopic && dyntype(result0) == typetag("string") && unbox(result0, "string") == "OK"
+//@   ensures[at-most-one-put] putCalls == old(putCalls) || putCalls == old(putCalls) + 1
+// binary mode = the body of a TCP MPUB (same reader readMPUB, same limits, same predicates mpubMsg / mpubAt as (*protocolV2).MPUB)
+//@   ensures[binary-whole-body-read] putCalls != old(putCalls) && jBinaryMode(gotQuery) ==> rErrs == old(rErrs) && rPos == mpubAt(old(rPos), len(putMsgs)) &&
+//@        len(putMsgs) == declLen(old(rPos)) && 1 <= len(putMsgs)
+//@   ensures[binary-messages; uses opts_fixed] putCalls != old(putCalls) && jBinaryMode(gotQuery) ==> forall j int :: {putMsgs[j]} 0 <= j && j < len(putMsgs) ==> mpubMsg(putMsgs[j], old(rPos), j, cfgMaxMsgSize())
+//@   ensures[binary-bodies-are-input] putCalls != old(putCalls) && jBinaryMode(gotQuery) ==> forall j int, k int :: {putMsgs[j].Body[k]} 0 <= j && j < len(putMsgs) && 0 <= k && k < len(putMsgs[j].Body) ==>
+//@        putMsgs[j].Body[k] == rIn[mpubAt(old(rPos), j) + 4 + k]
+//@   ensures[binary-count-limit; uses opts_fixed] putCalls != old(putCalls) && jBinaryMode(gotQuery) && cfgMaxBodySize() >= 0 ==> len(putMsgs) <= (cfgMaxBodySize() - 4) / 5
+//@   ensures[binary-rejected-413] result1 != nil && getTopicCalls != old(getTopicCalls) && putCalls == old(putCalls) && jBinaryMode(gotQuery) ==>
+//@        httpErr(result1, 413)
+// text mode
+//@   ensures[text-whole-body-read] putCalls != old(putCalls) && !jBinaryMode(gotQuery) ==> jbrErr == io.EOF
+//@   ensures[text-within-body-limit; uses opts_fixed, opts_range] putCalls != old(putCalls) && !jBinaryMode(gotQuery) && cfgMaxBodySize() < 9223372036854775807 ==> rPos - old(rPos) <= max(cfgMaxBodySize(), 0)
+//@   ensures[text-messages; uses opts_fixed] putCalls != old(putCalls) && !jBinaryMode(gotQuery) ==> forall j int :: {putMsgs[j]} 0 <= j && j < len(putMsgs) ==> jTextMsg(putMsgs[j], old(rPos), rPos, cfgMaxMsgSize())
+//@   ensures[text-bodies-are-input] putCalls != old(putCalls) && !jBinaryMode(gotQuery) ==> forall j int, k int :: {putMsgs[j].Body[k]} 0 <= j && j < len(putMsgs) && 0 <= k && k < len(putMsgs[j].Body) ==>
+//@        putMsgs[j].Body[k] == rIn[jMsgPos(putMsgs[j]) + k]
+//@   ensures[text-no-newline] putCalls != old(putCalls) && !jBinaryMode(gotQuery) ==> forall j int, k int :: {putMsgs[j].Body[k]} 0 <= j && j < len(putMsgs) && 0 <= k && k < len(putMsgs[j].Body) ==>
+//@        putMsgs[j].Body[k] != 10
+//@   ensures[text-left-maximal] putCalls != old(putCalls) && !jBinaryMode(gotQuery) ==> forall j int :: {putMsgs[j]} 0 <= j && j < len(putMsgs) ==>
+//@        jMsgPos(putMsgs[j]) == old(rPos) || rIn[jMsgPos(putMsgs[j]) - 1] == 10
+//@   ensures[text-right-maximal] putCalls != old(putCalls) && !jBinaryMode(gotQuery) ==> forall j int :: {putMsgs[j]} 0 <= j && j < len(putMsgs) ==>
+//@        rIn[jMsgEnd(putMsgs[j])] == 10 || (j == len(putMsgs) - 1 && jMsgEnd(putMsgs[j]) == rPos)
+//@   ensures[text-in-order] putCalls != old(putCalls) && !jBinaryMode(gotQuery) ==> forall j int :: {putMsgs[j]} 0 <= j && j + 1 < len(putMsgs) ==> jMsgEnd(putMsgs[j]) < jMsgPos(putMsgs[j + 1])
+//@   ensures[text-rejected] result1 != nil && getTopicCalls != old(getTopicCalls) && putCalls == old(putCalls) && !jBinaryMode(gotQuery) ==>
+//@        jHttpErrT(result1, 413, "BODY_TOO_BIG") || jHttpErrT(result1, 413, "MSG_TOO_BIG") || jHttpErrT(result1, 500, "INTERNAL_ERROR")
+//@   ensures[text-500-only-on-transport-error] httpErr(result1, 500) ==> jbrErr != nil && jbrErr != io.EOF
+//@   loop 0
+//@     invariant[mode] !binaryMode && !jBinaryMode(gotQuery)
+//@     invariant[topic] topic != nil && topic == gotTopic && getTopicCalls == old(getTopicCalls) + 1 && validName(gotTopicName) && gotTopicName == gotQuery["topic"][0]
+//@     invariant[nothing-put] putCalls == old(putCalls)
+//@     invariant[reader; uses opts_fixed] rdr != nil && rdr == jbrCur && 0 <= total && jbrLeft >= 0 && total + jbrLeft == max(readMax, 0) && readMax == wrapI64(cfgMaxBodySize() + 1)
+//@     invariant[position] rPos == old(rPos) + total
+//@     invariant[exit-at-eof] exit ==> jbrErr == io.EOF
+//@     invariant[line-boundary] exit || rPos == old(rPos) || rIn[rPos - 1] == 10
+//@     invariant[under-limit] total == 0 || total != readMax
+//@     invariant[messages; uses opts_fixed] forall j int :: {msgs[j]} 0 <= j && j < len(msgs) ==> jTextMsg(msgs[j], old(rPos), rPos, cfgMaxMsgSize())
+//@     invariant[bodies] forall j int, k int :: {msgs[j].Body[k]} 0 <= j && j < len(msgs) && 0 <= k && k < len(msgs[j].Body) ==>
+//@        msgs[j].Body[k] == rIn[jMsgPos(msgs[j]) + k]
+//@     invariant[no-newline] forall j int, k int :: {msgs[j].Body[k]} 0 <= j && j < len(msgs) && 0 <= k && k < len(msgs[j].Body) ==> msgs[j].Body[k] != 10
+//@     invariant[left-maximal] forall j int :: {msgs[j]} 0 <= j && j < len(msgs) ==> jMsgPos(msgs[j]) == old(rPos) || rIn[jMsgPos(msgs[j]) - 1] == 10
+//@     invariant[right-maximal] forall j int :: {msgs[j]} 0 <= j && j < len(msgs) ==> rIn[jMsgEnd(msgs[j])] == 10 || (exit && j == len(msgs) - 1 && jMsgEnd(msgs[j]) == rPos)
+//@     invariant[in-order] forall j int :: {msgs[j]} 0 <= j && j + 1 < len(msgs) ==> jMsgEnd(msgs[j]) < jMsgPos(msgs[j + 1])
+//@     invariant[last-before-here] len(msgs) > 0 && !exit ==> jMsgEnd(msgs[len(msgs) - 1]) < rPos
+
+// ------------------------------------------------------------------------------------------------------------------
+// The create / delete / empty / pause endpoints.
+//
+// Ghost record of what a handler did to the broker, set (onreturn) by the contracts of the target methods below - verified ones
+// (GetExistingTopic, GetExistingChannel, Topic.doPause/Pause/UnPause, Topic.Empty) and trusted stubs (the rest). "Exactly the stated
+// effect and nothing else" = the ensures clauses pin the call (which method, on which object, with which name, once) and the CHECKED
+// `modifies` clause of each handler lists the only ghosts and heap locations it may change: the records of every other operation
+// (putCalls, getTopicCalls, the other j* counters) are outside it.
+//   jReqParams / jReqErr (internal/http_api): result of the most recent NewReqParams
+//@ ghost jGetExTopicCalls int
+//@ ghost jGetExTopicName string
+//@ ghost jGetExTopic *Topic
+//@ ghost jGetExTopicErr error
+//@ ghost jDelTopicCalls int
+//@ ghost jDelTopicName string
+//@ ghost jDelTopicErr error
+//@ ghost jTopicEmptyCalls int
+//@ ghost jTopicEmptied *Topic
+//@ ghost jTopicEmptyErr error
+//@ ghost jTopicPauseCalls int
+//@ ghost jTopicPaused *Topic
+//@ ghost jTopicPauseVal bool
+//@ ghost jTopicPauseErr error
+//@ ghost jGetExChanCalls int
+//@ ghost jGetExChanTopic *Topic
+//@ ghost jGetExChanName string
+//@ ghost jGetExChan *Channel
+//@ ghost jGetExChanErr error
+//@ ghost jDelChanCalls int
+//@ ghost jDelChanTopic *Topic
+//@ ghost jDelChanName string
+//@ ghost jDelChanErr error
+//@ ghost jChanEmptyCalls int
+//@ ghost jChanEmptied *Channel
+//@ ghost jChanEmptyErr error
+//@ ghost jChanPauseCalls int
+//@ ghost jChanPaused *Channel
+//@ ghost jChanPauseVal bool
+//@ ghost jChanPauseErr error
+//@ ghost jPersistCalls int
+//@ ghost jPersistErr error
+//@ ghostgroup jPersistCalls, jPersistErr
+// the same calls are also recorded by the metadata contracts (zz_contracts_gmeta_verif.go): one frame name covers both records
+//@ ghostgroup gTopicPauseCalls, jTopicPauseCalls
+//@ ghostgroup gChanPauseCalls, jChanPauseCalls
+//@ ghostgroup gMetaCalls, jPersistCalls
+//@ ghostgroup jGetExTopicCalls, jGetExTopicName, jGetExTopic, jGetExTopicErr
+//@ ghostgroup jDelTopicCalls, jDelTopicName, jDelTopicErr
+//@ ghostgroup jTopicEmptyCalls, jTopicEmptied, jTopicEmptyErr
+//@ ghostgroup jTopicPauseCalls, jTopicPaused, jTopicPauseVal, jTopicPauseErr
+//@ ghostgroup jGetExChanCalls, jGetExChanTopic, jGetExChanName, jGetExChan, jGetExChanErr
+//@ ghostgroup jDelChanCalls, jDelChanTopic, jDelChanName, jDelChanErr
+//@ ghostgroup jChanEmptyCalls, jChanEmptied, jChanEmptyErr
+//@ ghostgroup jChanPauseCalls, jChanPaused, jChanPauseVal, jChanPauseErr
+
+// ---- target methods ------------------------------------------------------------------------------------------------
+// GetExistingTopic (verified): the topic registered under that name when the read lock was held, else an error; changes nothing
+// itself (the lock-guarded topic map is in the frame because other goroutines may change it once the lock is released).
+
+// GetExistingChannel (verified): same for a channel of a topic.
+
+// Topic pause flag (verified): Pause / UnPause set the flag, wake the message pump and cannot fail: doPause proves `result == nil`
+// ([never-fails]). The contracts of Pause / UnPause deliberately do NOT repeat that fact: with it the `500 INTERNAL_ERROR` branch of
+// doPauseTopic is dead code and the engine's cover check reports it as a vacuity FAULT; the handler contract instead pins 500 to a
+// failed pause (jTopicPauseErr), which [never-fails] shows cannot happen.
+
+// Topic.Empty (verified): drains the memory queue, then empties the backend; the backend's verdict is returned.
+// BackendQueue.Empty (assumed): touches no modelled state (the disk queue's files and counters are not modelled).
+//@ ghost jBackendEmptyErr error
+//   (extern (BackendQueue).Empty: /verif/lib/trusted/kchannel.spec, which also records jBackendEmptyErr)
+
+// Trusted stubs (bodies not verified here: they close clients, delete disk queues, start goroutines). Only the call protocol is
+// recorded; the frames list the modelled state these functions write according to a reading of their bodies (Topic.exit / Channel.exit /
+// Channel.Empty / initPQ / clientV2.Empty): none of them publishes, creates a topic or a channel, or pauses anything.
+//@ func (n *NSQD) DeleteExistingTopic(topicName string) error
+//@   trusted
+//@   requires n != nil
+//@   modifies jDelTopicCalls, NSQD.topicMap, mapstore(map[string]*Topic), Topic.channelMap, mapstore(map[string]*Channel), Topic.exitFlag, Channel.exitFlag,
+//@        Channel.inFlightMessages, Channel.inFlightPQ, Channel.deferredMessages, Channel.deferredPQ, mapstore(map[MessageID]*Message), mapstore(map[MessageID]*pqueue.Item),
+//@        elems(*Message), Message.index, clientV2.InFlightCount
+//@   onreturn jDelTopicCalls := jDelTopicCalls + 1
+//@   onreturn jDelTopicName := topicName
+//@   onreturn jDelTopicErr := result
+// Channel.Pause / UnPause: set the flag, tell every client (the result is left unconstrained for the reason given at Topic.Pause).
+// PersistMetadata writes the metadata file; no modelled state changes.
+
+// ---- the query helper of the channel endpoints ---------------------------------------------------------------------------
+// The validation table (first failure wins); jV() = the parsed query of this request.
+//   query / body unreadable              -> 400 INVALID_REQUEST
+//   GetTopicChannelArgs' table           -> 400 MISSING_ARG_TOPIC | INVALID_ARG_TOPIC | MISSING_ARG_CHANNEL | INVALID_ARG_CHANNEL
+//   no topic of that name                -> 404 TOPIC_NOT_FOUND
+//   otherwise the params, the topic, the channel name
+//@ fn jV() url.Values := jReqParams.Values
+//@ pred jTopicArg(v url.Values) := has(v, "topic") && validName(v["topic"][0])
+//@ pred jChannelArg(v url.Values) := has(v, "channel") && validName(v["channel"][0])
+
+// ---- topic endpoints ---------------------------------------------------------------------------------------------------
+// POST /topic/create?topic=..  : getTopicFromQuery's table; on success GetTopic(topic) exactly once, nothing else.
+//@ func (s *httpServer) doCreateTopic(w http.ResponseWriter, req *http.Request, ps httprouter.Params) (interface{}, error)
+//@   props C10
+//@   requires s != nil && s.nsqd != nil && s.nsqd.ci != nil && http_api.mServerReq(req)
+//@   ensures[errors] result1 != nil ==> (jHttpErrT(result1, 400, "INVALID_REQUEST") || jHttpErrT(result1, 400, "MISSING_ARG_TOPIC") || jHttpErrT(result1, 400, "INVALID_TOPIC")) && getTopicCalls == old(getTopicCalls)
+//@   ensures[created] result1 == nil ==> getTopicCalls == old(getTopicCalls) + 1 && has(gotQuery, "topic") && gotTopicName == gotQuery["topic"][0] && validName(gotTopicName) && gotTopic != nil
+//@   ensures[empty-answer] result0 == nil
+//@   modifies getTopicFrame, gotQuery
+
+// POST /topic/empty?topic=..
+//   unreadable -> 400 INVALID_REQUEST; no topic -> 400 MISSING_ARG_TOPIC; invalid name -> 400 INVALID_TOPIC; unknown -> 404 TOPIC_NOT_FOUND;
+//   otherwise Topic.Empty on the topic of that name, once; 500 INTERNAL_ERROR only if the backend failed to empty.
+//@ func (s *httpServer) doEmptyTopic(w http.ResponseWriter, req *http.Request, ps httprouter.Params) (interface{}, error)
+//@   props C10
+//@   requires s != nil && s.nsqd != nil && http_api.mServerReq(req)
+//@   ensures[typed-error] result1 != nil ==> httpErr(result1, 400) || httpErr(result1, 404) || httpErr(result1, 500)
+//@   ensures[invalid-request] jReqErr != nil ==> jHttpErrT(result1, 400, "INVALID_REQUEST")
+//@   ensures[missing-topic] jReqErr == nil && !has(jV(), "topic") ==> jHttpErrT(result1, 400, "MISSING_ARG_TOPIC")
+//@   ensures[invalid-topic] jReqErr == nil && has(jV(), "topic") && !validName(jV()["topic"][0]) ==> jHttpErrT(result1, 400, "INVALID_TOPIC")
+//@   ensures[no-lookup-on-bad-args] jReqErr != nil || !jTopicArg(jV()) ==> jGetExTopicCalls == old(jGetExTopicCalls) && jTopicEmptyCalls == old(jTopicEmptyCalls)
+//@   ensures[lookup-by-name] jReqErr == nil && jTopicArg(jV()) ==> jGetExTopicCalls == old(jGetExTopicCalls) + 1 && jGetExTopicName == jV()["topic"][0]
+//@   ensures[unknown-topic] jGetExTopicCalls != old(jGetExTopicCalls) && jGetExTopicErr != nil ==> jHttpErrT(result1, 404, "TOPIC_NOT_FOUND") && jTopicEmptyCalls == old(jTopicEmptyCalls)
+//@   ensures[emptied-once] jGetExTopicCalls != old(jGetExTopicCalls) && jGetExTopicErr == nil ==> jTopicEmptyCalls == old(jTopicEmptyCalls) + 1 && jTopicEmptied == jGetExTopic
+//@   ensures[ok-iff-emptied] jTopicEmptyCalls != old(jTopicEmptyCalls) ==> (result1 == nil <==> jTopicEmptyErr == nil)
+//@   ensures[500-only-backend-failure] httpErr(result1, 500) ==> jTopicEmptyCalls == old(jTopicEmptyCalls) + 1 && jTopicEmptyErr != nil && jHttpErrT(result1, 500, "INTERNAL_ERROR")
+//@   ensures[ok] result1 == nil ==> result0 == nil && jTopicEmptyCalls == old(jTopicEmptyCalls) + 1
+//@   modifies jReqParams, jGetExTopicCalls, jTopicEmptyCalls, jBackendEmptyErr, NSQD.topicMap, mapstore(map[string]*Topic)
+
+// POST /topic/delete?topic=..   (the name is not validated: an invalid name is simply unknown)
+//@ func (s *httpServer) doDeleteTopic(w http.ResponseWriter, req *http.Request, ps httprouter.Params) (interface{}, error)
+//@   props C10
+//@   requires s != nil && s.nsqd != nil && http_api.mServerReq(req)
+//@   ensures[typed-error] result1 != nil ==> httpErr(result1, 400) || httpErr(result1, 404)
+//@   ensures[invalid-request] jReqErr != nil ==> jHttpErrT(result1, 400, "INVALID_REQUEST")
+//@   ensures[missing-topic] jReqErr == nil && !has(jV(), "topic") ==> jHttpErrT(result1, 400, "MISSING_ARG_TOPIC")
+//@   ensures[no-delete-on-bad-args] jReqErr != nil || !has(jV(), "topic") ==> jDelTopicCalls == old(jDelTopicCalls)
+//@   ensures[delete-by-name] jReqErr == nil && has(jV(), "topic") ==> jDelTopicCalls == old(jDelTopicCalls) + 1 && jDelTopicName == jV()["topic"][0]
+//@   ensures[unknown-topic] jDelTopicCalls != old(jDelTopicCalls) && jDelTopicErr != nil ==> jHttpErrT(result1, 404, "TOPIC_NOT_FOUND")
+//@   ensures[ok] result1 == nil ==> result0 == nil && jDelTopicCalls == old(jDelTopicCalls) + 1 && jDelTopicErr == nil
+//@   ensures[deleted-means-ok] jDelTopicCalls != old(jDelTopicCalls) && jDelTopicErr == nil ==> result1 == nil
+//@   modifies jReqParams, jDelTopicCalls, NSQD.topicMap, mapstore(map[string]*Topic), Topic.channelMap, mapstore(map[string]*Channel), Topic.exitFlag, Channel.exitFlag,
+//@        Channel.inFlightMessages, Channel.inFlightPQ, Channel.deferredMessages, Channel.deferredPQ, mapstore(map[MessageID]*Message), mapstore(map[MessageID]*pqueue.Item),
+//@        elems(*Message), Message.index, clientV2.InFlightCount
+
+// POST /topic/pause?topic=..  and  /topic/unpause?topic=..  (same handler; the path decides). The name is not validated.
+// jContains: strings.Contains (.trusted/jhttp.spec). Pausing cannot fail, so 500 is never answered; the metadata is persisted once.
+
+// ---- channel endpoints -------------------------------------------------------------------------------------------------
+// POST /channel/create?topic=..&channel=..  : getExistingTopicFromQuery's table (the topic must exist: it is NOT created); on success
+// GetChannel(channel) on that topic. watchName / watchTopic are arbitrary (zz_contracts_lookup_verif.go), so [created] / [nothing-else-created]
+// speak about every (topic, channel) pair: the pair of the request is created, no other pair is.
+//@ func (s *httpServer) doCreateChannel(w http.ResponseWriter, req *http.Request, ps httprouter.Params) (interface{}, error)
+//@   props C10
+//@   requires s != nil && s.nsqd != nil && http_api.mServerReq(req)
+//@   ensures[typed-error] result1 != nil ==> httpErr(result1, 400) || httpErr(result1, 404)
+//@   ensures[args] result1 == nil <==> (jReqErr == nil && jTopicArg(jV()) && jChannelArg(jV()) && jGetExTopicCalls == old(jGetExTopicCalls) + 1 && jGetExTopicErr == nil)
+//@   ensures[topic-by-name] jGetExTopicCalls != old(jGetExTopicCalls) ==> jGetExTopicCalls == old(jGetExTopicCalls) + 1 && jGetExTopicName == jV()["topic"][0]
+//@   ensures[created] result1 == nil && jGetExTopic == watchTopic && jV()["channel"][0] == watchName ==> watchCreated
+//@   ensures[nothing-else-created] !(result1 == nil && jGetExTopic == watchTopic && jV()["channel"][0] == watchName) ==> watchCreated == old(watchCreated)
+//@   ensures[no-topic-created] getTopicCalls == old(getTopicCalls)
+//@   modifies jReqParams, jGetExTopicCalls, NSQD.topicMap, mapstore(map[string]*Topic), getChannelFrame
+
+// POST /channel/empty?topic=..&channel=..
+//@ func (s *httpServer) doEmptyChannel(w http.ResponseWriter, req *http.Request, ps httprouter.Params) (interface{}, error)
+//@   props C10
+//@   requires s != nil && s.nsqd != nil && http_api.mServerReq(req)
+//@   ensures[typed-error] result1 != nil ==> httpErr(result1, 400) || httpErr(result1, 404) || httpErr(result1, 500)
+//@   ensures[bad-args] !(jReqErr == nil && jTopicArg(jV()) && jChannelArg(jV())) ==> httpErr(result1, 400) && jGetExChanCalls == old(jGetExChanCalls) && jChanEmptyCalls == old(jChanEmptyCalls)
+//@   ensures[unknown-topic] jGetExTopicCalls != old(jGetExTopicCalls) && jGetExTopicErr != nil ==> jHttpErrT(result1, 404, "TOPIC_NOT_FOUND") && jGetExChanCalls == old(jGetExChanCalls) && jChanEmptyCalls == old(jChanEmptyCalls)
+//@   ensures[channel-by-name] jGetExChanCalls != old(jGetExChanCalls) ==> jGetExChanCalls == old(jGetExChanCalls) + 1 && jGetExChanTopic == jGetExTopic && jGetExTopicName == jV()["topic"][0] && jGetExChanName == jV()["channel"][0]
+//@   ensures[unknown-channel] jGetExChanCalls != old(jGetExChanCalls) && jGetExChanErr != nil ==> jHttpErrT(result1, 404, "CHANNEL_NOT_FOUND") && jChanEmptyCalls == old(jChanEmptyCalls)
+//@   ensures[emptied-once] jGetExChanCalls != old(jGetExChanCalls) && jGetExChanErr == nil ==> jChanEmptyCalls == old(jChanEmptyCalls) + 1 && jChanEmptied == jGetExChan
+//@   ensures[ok-iff-emptied] jChanEmptyCalls != old(jChanEmptyCalls) ==> (result1 == nil <==> jChanEmptyErr == nil)
+//@   ensures[500-only-backend-failure] httpErr(result1, 500) ==> jChanEmptyCalls == old(jChanEmptyCalls) + 1 && jChanEmptyErr != nil && jHttpErrT(result1, 500, "INTERNAL_ERROR")
+//@   ensures[ok] result1 == nil ==> result0 == nil && jChanEmptyCalls == old(jChanEmptyCalls) + 1 && jGetExChanCalls == old(jGetExChanCalls) + 1
+//@   modifies jReqParams, jGetExTopicCalls, jGetExChanCalls, NSQD.topicMap, mapstore(map[string]*Topic), Topic.channelMap, mapstore(map[string]*Channel), channelEmptyFrame
+
+// POST /channel/delete?topic=..&channel=..
+//@ func (s *httpServer) doDeleteChannel(w http.ResponseWriter, req *http.Request, ps httprouter.Params) (interface{}, error)
+//@   props C10
+//@   requires s != nil && s.nsqd != nil && http_api.mServerReq(req)
+//@   ensures[typed-error] result1 != nil ==> httpErr(result1, 400) || httpErr(result1, 404)
+//@   ensures[bad-args] !(jReqErr == nil && jTopicArg(jV()) && jChannelArg(jV())) ==> httpErr(result1, 400) && jDelChanCalls == old(jDelChanCalls)
+//@   ensures[unknown-topic] jGetExTopicCalls != old(jGetExTopicCalls) && jGetExTopicErr != nil ==> jHttpErrT(result1, 404, "TOPIC_NOT_FOUND") && jDelChanCalls == old(jDelChanCalls)
+//@   ensures[delete-by-name] jDelChanCalls != old(jDelChanCalls) ==> jDelChanCalls == old(jDelChanCalls) + 1 && jDelChanTopic == jGetExTopic && jGetExTopicName == jV()["topic"][0] && jDelChanName == jV()["channel"][0]
+//@   ensures[unknown-channel] jDelChanCalls != old(jDelChanCalls) && jDelChanErr != nil ==> jHttpErrT(result1, 404, "CHANNEL_NOT_FOUND")
+//@   ensures[ok] result1 == nil ==> result0 == nil && jDelChanCalls == old(jDelChanCalls) + 1 && jDelChanErr == nil
+//@   ensures[found-means-deleted] jGetExTopicCalls != old(jGetExTopicCalls) && jGetExTopicErr == nil ==> jDelChanCalls == old(jDelChanCalls) + 1 && (jDelChanErr == nil ==> result1 == nil)
+//@   modifies jReqParams, jGetExTopicCalls, NSQD.topicMap, mapstore(map[string]*Topic), deleteChannelFrame
+
+// POST /channel/pause?..  and  /channel/unpause?..
+
+// ------------------------------------------------------------------------------------------------------------------
+// The TLS gate in front of the router (C11): with TLS required and this listener being the plaintext one, the request is answered
+// 403 and NEVER reaches the router (no handler runs); otherwise it is handed to the router exactly once and ServeHTTP itself
+// writes no status. jRouted / jHdrWrites / jLastStatus: .trusted/jhttp.spec (router.ServeHTTP, ResponseWriter.WriteHeader).
+// RealHTTPSAddr (assumed): never nil (an empty TCPAddr when there is no HTTPS listener; the listener is a TCP listener).
+//@ func (n *NSQD) RealHTTPSAddr() *net.TCPAddr
+//@   trusted
+//@   ensures result != nil
+//@   modifies
+//@ func (s *httpServer) ServeHTTP(w http.ResponseWriter, req *http.Request)
+//@   props C11 C10
+//@   requires s != nil && s.nsqd != nil && s.router != nil && w != nil
+//@   ensures[tls-required-refused] !s.tlsEnabled && s.tlsRequired ==> jRouted == old(jRouted) && jHdrWrites == old(jHdrWrites) + 1 && jLastStatus == 403 && jLastStatusW == w
+//@   ensures[otherwise-routed-once] !(!s.tlsEnabled && s.tlsRequired) ==> jRouted == old(jRouted) + 1 && jRoutedTo == s.router && jRoutedReq == req
